@@ -67,6 +67,33 @@ def require_detF(vk, F):
         raise Skip("det F too small")
 
 
+def other_state(vk, item, fresh, cls, rg, dim, fc, r, K, prepare=None):
+    """the same item evaluated for ANOTHER state handed over as `field=` (a container of its own): vector and matrix
+    are those of a freshly built item at that state (which is under the single-call contract), the state handed over
+    is only read, and going back to the first state reproduces the first result (nothing stale is kept)"""
+    # (a load item owns the field it was built with and links the values handed over into it, so the first state
+    # is handed over again as a container of its own)
+    fcA = fem.FieldContainer([cls(rg, dim=dim, values=np.array(fc[0].values))])
+    uB = vk.reals("uB", (rg.mesh.npoints, dim), near=0.0, spread=0.05)
+    fB = cls(rg, dim=dim, values=uB)
+    fcB = fem.FieldContainer([fB])
+    require_detF(vk, fB.extract())
+    snap = vk.snapshot(fB.values)
+    rB, KB = assemble_pair(vk, item, fcB)
+    vk.frame_unchanged("other-state/values of the state handed over", fB.values, snap)
+    it2 = fresh(fcB)
+    if prepare is not None:
+        prepare(it2)
+    rF, KF = assemble_pair(vk, it2, fcB)
+    vk.ensures_eq("other-state/vector(field=B)==vector of a fresh item at B", rB, rF)
+    vk.ensures_eq("other-state/matrix(field=B)==matrix of a fresh item at B", KB, KF)
+    rA, KA = assemble_pair(vk, item, fcA)
+    vk.ensures_eq("other-state/back at the first state: vector", rA, r)
+    vk.ensures_eq("other-state/back at the first state: matrix", KA, K)
+    if vk.sym:
+        vk.canary("other-state/vector(field=B)==vector(A)", rB, r)
+
+
 SOLID = [dict(field=f, hyper=h) for f in ("3d", "2d", "planestrain", "axisymmetric") for h in (True, False)]
 SOLID += [dict(field=f, hyper=True, state=True) for f in ("3d", "planestrain")]  # material with stored state variables
 
@@ -117,6 +144,8 @@ def solidbody(vk, cfg):
     r2, K2 = assemble_pair(vk, body)
     vk.ensures_eq("vector(cached)==vector(field)", r2, r)
     vk.ensures_eq("matrix(cached)==matrix(field)", K2, K)
+    if kind in ("3d", "planestrain") and cfg["hyper"]:
+        other_state(vk, body, lambda fcx: fem.SolidBody(umat, fcx), cls, rg, dim, fc, r, K)
 
 
 @contract("C01", "mixed", configs=[dict(field=f) for f in ("3d", "planestrain", "axisymmetric")])
@@ -255,6 +284,15 @@ def follower_loads(vk, cfg):
     # the load item aliases the field it was constructed with: evaluate at the current state (field=None)
     r, K = assemble_pair(vk, item)
     tangent_obligations(vk, r, K, unknowns(fc), symmetric=False)
+    if not cfg.get("small") and kind != "axisymmetric":
+        prep = (lambda it: setattr(it, "_area_change", StubAreaChange())) if vk.sym else None
+        if cfg["item"] == "pressure":
+            vk.real(fem.SolidBodyPressure._update)
+            p_ = item.results.pressure
+            other_state(vk, item, lambda fcx: fem.SolidBodyPressure(fcx, pressure=p_), cls, rg, dim, fc, r, K, prepare=prep)
+        else:
+            vk.real(fem.SolidBodyCauchyStress._update)
+            other_state(vk, item, lambda fcx: fem.SolidBodyCauchyStress(fcx, cauchy_stress=sig), cls, rg, dim, fc, r, K, prepare=prep)
     if cfg["item"] == "pressure":
         # the pressure keyword is used for the very call it is passed to (vector and matrix alike)
         p2 = vk.real_scalar("pressure2", near=2.0)
